@@ -105,7 +105,8 @@ def read_interactions(path, comments="#", directed=False, delimiter=None,
     ids = None
     lines = (line.decode(encoding) for line in path)
     if keys:
-        ids = read_ids(path.name, delimiter=delimiter, timestamptype=timestamptype)
+        ids = read_ids(path.name, delimiter=delimiter, timestamptype=timestamptype, comments=comments,
+                       encoding=encoding, interactions=True)
 
     return parse_interactions(lines, comments=comments, directed=directed, delimiter=delimiter, nodetype=nodetype,
                               timestamptype=timestamptype, keys=ids)
@@ -289,23 +290,34 @@ def read_snapshots(path, comments="#", directed=False, delimiter=None,
     ids = None
     lines = (line.decode(encoding) for line in path)
     if keys:
-        ids = read_ids(path.name, delimiter=delimiter, timestamptype=timestamptype)
+        ids = read_ids(path.name, delimiter=delimiter, timestamptype=timestamptype, comments=comments,
+                       encoding=encoding)
 
     return parse_snapshots(lines, comments=comments, directed=directed, delimiter=delimiter, nodetype=nodetype,
                            timestamptype=timestamptype, keys=ids)
 
 
-def read_ids(path, delimiter=None, timestamptype=None):
-    f = open(path)
+def read_ids(path, delimiter=None, timestamptype=None, comments='#', encoding='utf-8', interactions=False):
+    f = open(path, encoding=encoding)
     ids = {}
     for line in f:
-        s = line.rstrip().split(delimiter)
-        ids[timestamptype(s[-1])] = None
-        if len(line) == 4:
-            if s[-2] not in ['+', '-']:
-                ids[timestamptype(s[-2])] = None
+        # same row grammar as parse_snapshots / parse_interactions
+        p = line.find(comments)
+        if p >= 0:
+            line = line[:p]
+        s = line.strip().split(delimiter)
+        if interactions:
+            stamps = s[3:4] if len(s) == 4 else []
+        else:
+            stamps = s[2:4] if len(s) >= 3 else []
+        for x in stamps:
+            if timestamptype is not None:
+                try:
+                    x = timestamptype(x)
+                except:
+                    raise TypeError("Failed to convert timestamp %s to type %s." % (x, timestamptype))
+            ids[x] = None
 
-    f.flush()
     f.close()
 
     ids = compact_timeslot(ids.keys())
